@@ -44,7 +44,7 @@ func (c *countingRT) RoundTrip(r *http.Request) (*http.Response, error) {
 
 func checkC13(e *core.Env) {
 	curEnv = e
-	e.SetRule("matrix {http, https, in-process} x {creds require security, not} x 4 RPC kinds x credential metadata {disjoint, overlapping caller keys, empty, error} x {peer option, header option present/absent}, caller metadata random per cell; oracle: requests issued (counting RoundTripper), handler's incoming metadata = caller values then credential values per key, peer option and handler peer have an address and TLS auth info on TLS; distinct = matrix cells")
+	e.SetRule("matrix {http, https, in-process, http and https over a unix-domain socket} x {handler succeeds, handler fails with a status} x {creds require security, not} x 4 RPC kinds x credential metadata {disjoint, overlapping caller keys, empty, error} x {peer option, header option present/absent}, caller metadata random per cell; oracle: requests issued (counting RoundTripper), handler's incoming metadata = caller values then credential values per key, peer option and handler peer have an address and TLS auth info on TLS; distinct = matrix cells")
 	e.SetExhaustive(true)
 	plain := NewHTTPServer(&Service{}, carrierOpt{})
 	tls := NewHTTPServer(&Service{}, carrierOpt{tls: true})
